@@ -402,6 +402,14 @@ def fix_oracle(m, kw, seed):
             under_replaced = any(path.startswith(q + ".") and type(fm.get(q)) is not type(dict(m.named_modules())[q]) for q in dict(m.named_modules()) if q)
             if not under_replaced:
                 out.append((f"C15:fix:parameter-changed:{type(mod).__name__}", f"fix({tree}): parameters of untouched module '{path}' differ", {"tree": tree, "path": path}))
+    # a REPLACEMENT (a layer of another type than the one it stands for) carries no running statistics
+    for path, mod in m.named_modules():
+        g = fm.get(path)
+        if g is not None and type(g) is not type(mod) and any(n.endswith("running_mean") for n, _ in g.named_buffers()):
+            out.append((f"C15:fix:{type(mod).__name__}->{type(g).__name__}:replacement-tracks-running-stats",
+                        f"fix({tree}, **{kwd}) replaced '{path}' {type(mod).__name__} by {type(g).__name__} with running-statistics buffers "
+                        f"(track_running_stats={getattr(g, 'track_running_stats', None)}): training-mode forward passes write data-dependent statistics into it", {"tree": tree, "kwargs": kwd, "path": path}))
+            break
         # replaced LSTM / MHA compute the same function
     for path, mod in m.named_modules():
         g = fm.get(path)
@@ -867,6 +875,11 @@ def run(ctx):
             search_one(ctx, sp, {"rbi": None, "ng": None, "extra": 0}, sd)
         for _ in range(ctx.n(150, 1500)):
             search_one(ctx, zoo.gen_spec(ctx.rng, flips=False), gen_kw(ctx.rng), ctx.rng.randrange(1 << 30))
+        for i in range(ctx.n(12, 120)):
+            k = ["BatchNorm1d", "BatchNorm2d", "BatchNorm3d"][i % 3]
+            spec = {"C": 4, "L": 4, "root_eval": False, "values": 31 + i,
+                    "root": {"k": "Sequential", "ch": [{"k": k, "a": {"num_features": 4, "affine": bool(i & 1), "track_running_stats": bool(i & 2) or i % 4 == 0}}]}}
+            search_one(ctx, spec, {"rbi": True, "ng": None, "extra": 0}, ctx.rng.randrange(1 << 30))
         for _ in range(ctx.n(60, 600)):
             mixed_dtype_search(ctx, zoo.gen_spec(ctx.rng, flips=False), ctx.rng.randrange(1 << 30))
         for _ in range(ctx.n(2, 10)):
